@@ -633,7 +633,7 @@ pub fn run(c: &mut Ctx) {
     let miri = c.mode == "miri";
     // (a) structure-aware: valid, then mutated
     let fam = "mut";
-    let total = c.total(60_000, 6_000_000);
+    let total = c.total(300_000, 6_000_000);
     for idx in c.cases(fam, total) {
         if c.out_of_time() {
             break;
@@ -658,7 +658,7 @@ pub fn run(c: &mut Ctx) {
     }
     // (b) exhaustive families on small messages: every pointer target at every name position
     let fam = "ptr-exh";
-    let total = c.total(60, 2000);
+    let total = c.total(200, 4000);
     for idx in c.cases(fam, total) {
         if c.out_of_time() {
             break;
@@ -694,7 +694,7 @@ pub fn run(c: &mut Ctx) {
     }
     // (c) random octets with a valid-looking header
     let fam = "rand";
-    let total = c.total(30_000, 3_000_000);
+    let total = c.total(150_000, 3_000_000);
     for idx in c.cases(fam, total) {
         if c.out_of_time() {
             break;
